@@ -63,7 +63,7 @@ def cases(tier, seed):
             nth += 1
             yield "ext.cooler", {"table": table, "mode": mode, "px": dense_px(n, mode), "qs": qs[part:part + 30],
                                  **({"at": ["/resolutions/10", "/a/b"][nth % 2], "open": ["handle", "uri"][nth % 3 == 0]}
-                                    if nth % 4 == 1 else {})}
+                                    if nth % 4 == 1 else {}), "prior": nth % 5 == 2}
     # refusals
     for table in list(gen.REPRESENTATIVE_TABLES.values()):
         lens = gen.chrom_lens(table)
